@@ -64,6 +64,7 @@ func genScenario(rt *rapid.T, p Profile) Scenario {
 		online[t.ID] = t.Online
 	}
 	nLogged := 0
+	hasDelete := map[int]bool{}
 	for i := 0; i < ns; i++ {
 		// faults and crashes between requests
 		if p.Faults && rapid.IntRange(0, 2).Draw(rt, "fault") == 0 {
@@ -103,9 +104,21 @@ func genScenario(rt *rapid.T, p Profile) Scenario {
 			crashes++
 		}
 		if p.Rollbacks && nLogged > 0 && rapid.IntRange(0, 4).Draw(rt, "rollback") == 0 {
-			sc.Actions = append(sc.Actions, Action{Kind: "rollback", Index: rapid.IntRange(1, nLogged).Draw(rt, "rbindex")})
-			nLogged++
-			continue
+			// rolling back a change that deleted a node is the listed finding
+			// F-rollback-subtree-delete (C06): not generated here
+			var ok []int
+			for idx := 1; idx <= nLogged; idx++ {
+				if !hasDelete[idx] {
+					ok = append(ok, idx)
+				}
+			}
+			if len(ok) > 0 {
+				// mostly the most recent candidates (the ones that can succeed)
+				k := len(ok) - 1 - rapid.IntRange(0, min(2, len(ok)-1)).Draw(rt, "rbback")
+				sc.Actions = append(sc.Actions, Action{Kind: "rollback", Index: ok[k]})
+				nLogged++
+				continue
+			}
 		}
 		// the Set itself
 		tgts := []string{ids[rapid.IntRange(0, len(ids)-1).Draw(rt, "target")]}
@@ -147,6 +160,11 @@ func genScenario(rt *rapid.T, p Profile) Scenario {
 		}
 		sc.Actions = append(sc.Actions, Action{Kind: "set", Set: &spec})
 		nLogged++
+		for _, op := range spec.Ops {
+			if op.Kind == "delete" {
+				hasDelete[nLogged] = true
+			}
+		}
 	}
 	if crashes < p.Crashes && rapid.IntRange(0, 3).Draw(rt, "lastcrash") == 0 {
 		sc.Actions = append(sc.Actions, Action{Kind: "crash"})
